@@ -22,6 +22,10 @@ class C16(common.SpecCheck):
                    "spacetime over class-A specs: a failing output is attributed to C04-K1/K2 only by counterfactual re-execution"]
 
     def gen(self, rng, k):
+        if rng.random() < 0.15:
+            spec, meta = classes.gen_cascade_spacetime(rng)
+            meta["class"] = "TK"
+            return spec, meta
         spec, meta = classes.gen_spacetime(rng)
         meta["class"] = "T"
         return spec, meta
@@ -42,8 +46,8 @@ class C16(common.SpecCheck):
     def nontrivial(self, spec, meta):
         return bool(meta.get("npart"))
 
-    def levels_ordered(self, meta):
-        lo = meta["loop_ranks"]
+    def levels_ordered(self, meta, lo=None):
+        lo = meta["loop_ranks"] if lo is None else lo
         seen = {}
         for r in lo:
             root = r.rstrip("0123456789")
@@ -62,41 +66,55 @@ class C16(common.SpecCheck):
         for h, r in sorted(results.items()):
             if r["status"] != "ok":
                 continue
+            # Einsums that display something, in program order (single-Einsum classes: the one Einsum)
+            if meta.get("st_map") is not None:
+                from model import dense
+                outs = [dense.output_name(e) for e in spec["exprs"]]
+                shown = [(o, meta["st_map"][o]["loop_ranks"]) for o in outs if o in meta["st_map"]]
+            else:
+                shown = [(None, meta["loop_ranks"])]
             for i, run in enumerate(r["runs"]):
                 cv = run.get("canvas") or []
-                if len(cv) != 1:
-                    vs.append(common.Violation("canvas_count", [h], {"input_set": i, "canvases": len(cv)}))
+                if len(cv) != len(shown):
+                    vs.append(common.Violation("canvas_count", [h], {"input_set": i, "canvases": len(cv), "expected": len(shown)}))
                     return vs
-                c = cv[0]
-                if not c["displayed"]:
-                    vs.append(common.Violation("canvas_not_displayed", [h], {"input_set": i}))
-                    return vs
-                upd = c["updates_at_display"] - c["updates_at_creation"]
-                if c["n_acts"] != upd or c["total_updates"] != c["updates_at_display"]:
-                    vs.append(common.Violation("activities_vs_updates", [h], {"input_set": i, "activities": c["n_acts"], "updates": upd,
-                                                                              "updates_outside_canvas": c["total_updates"] - upd}))
-                    return vs
-                stamps = set()
-                for j, (pts, st, nupd) in enumerate(c["acts"]):
-                    if nupd != c["updates_at_creation"] + j + 1:
-                        vs.append(common.Violation("activity_not_per_update", [h], {"input_set": i, "activity": j}))
+                for ci, (c, (oname, lranks)) in enumerate(zip(cv, shown)):
+                    if not c["displayed"]:
+                        vs.append(common.Violation("canvas_not_displayed", [h], {"input_set": i, "einsum": oname}))
                         return vs
-                    if len(pts) != len(c["ranks"]):
-                        vs.append(common.Violation("points_vs_tensors", [h], {"input_set": i, "points": len(pts), "tensors": c["names"]}))
+                    upd = c["updates_at_display"] - c["updates_at_creation"]
+                    outside = c["total_updates"] - upd if len(shown) == 1 and len(spec["exprs"]) == 1 else 0
+                    if c["n_acts"] != upd or outside:
+                        vs.append(common.Violation("activities_vs_updates", [h], {"input_set": i, "einsum": oname, "activities": c["n_acts"],
+                                                                                  "updates": upd, "updates_outside_canvas": outside}))
                         return vs
-                    for p, ranks, name in zip(pts, c["ranks"], c["names"]):
-                        if not isinstance(p, list) or len(p) != len(ranks):
-                            vs.append(common.Violation("point_arity", [h], {"input_set": i, "tensor": name, "ranks": ranks, "point": p}))
+                    stamps = set()
+                    ordered = self.levels_ordered(meta, lranks)
+                    for j, (pts, st, nupd) in enumerate(c["acts"]):
+                        if nupd != c["updates_at_creation"] + j + 1:
+                            vs.append(common.Violation("activity_not_per_update", [h], {"input_set": i, "einsum": oname, "activity": j}))
                             return vs
-                    key = json.dumps(st)
-                    if key in stamps and self.levels_ordered(meta):
-                        vs.append(common.Violation("duplicate_stamp", [h], {"input_set": i, "stamp": st}))
-                        return vs
-                    stamps.add(key)
+                        if len(pts) != len(c["ranks"]):
+                            vs.append(common.Violation("points_vs_tensors", [h], {"input_set": i, "points": len(pts), "tensors": c["names"]}))
+                            return vs
+                        for p, ranks, name in zip(pts, c["ranks"], c["names"]):
+                            if not isinstance(p, list) or len(p) != len(ranks):
+                                vs.append(common.Violation("point_arity", [h], {"input_set": i, "tensor": name, "ranks": ranks, "point": p}))
+                                return vs
+                        key = json.dumps(st)
+                        if key in stamps and ordered:
+                            vs.append(common.Violation("duplicate_stamp", [h], {"input_set": i, "einsum": oname, "stamp": st}))
+                            return vs
+                        stamps.add(key)
         return vs
 
     def observe(self, spec, meta, results, stats):
         stats.add("base:" + meta["base"])
+        if meta.get("st_map") is not None:
+            stats.add("probe:cascade_einsums_with_spacetime", len(meta["st_map"]))
+            if any(v["st"].get("opt") == "slip" for k2, v in meta["st_map"].items() if k2 != list(meta["st_map"])[0]):
+                stats.add("probe:slip_on_later_einsum")
+            return
         st = meta["st"]
         if st.get("opt") == "slip":
             stats.add("probe:slip")
